@@ -33,7 +33,7 @@ CHECKS["C19"] = ("model_checking",
 
 CHECKS["C08"] = ("fault_enumeration",
     "exhaustive fault enumeration: every mutating file-system op and every read-open of each scenario x every fault kind (real process death / injected I/O error), recovery in a fresh process; thorough: every second fault during recovery",
-    "For 11 memoization scenarios (string, dedup across functions, key override, partition, exception, forget+recall, custom metadata, two arguments, None + shared partition blob, result larger than the memory cache, partition merged over the partition of a nested call) with and without memory cache, the fault-free op log (every mutating op and every file opened for reading while memoizing) is recorded and every (op, fault kind) pair is executed: crash before, crash leaving an empty file, crash leaving half the bytes or all but the last 1 / 8 bytes, error on open (write or read)/mkdir/unlink, ENOSPC mid-write. Callers of a process that survives a reported error must not see it, and that process keeps calling (three more calls of everything: correct values, no exception, at most one recomputation); after restart in a fresh process every call must return the correct value, raise nothing and stop recomputing after one successful write.",
+    "For 12 memoization scenarios (a call with further calls prevented followed by ordinary calls, string, dedup across functions, key override, partition, exception, forget+recall, custom metadata, two arguments, None + shared partition blob, result larger than the memory cache, partition merged over the partition of a nested call) with and without memory cache, the fault-free op log (every mutating op and every file opened for reading while memoizing) is recorded and every (op, fault kind) pair is executed: crash before, crash leaving an empty file, crash leaving half the bytes or all but the last 1 / 8 bytes, error on open (write or read)/mkdir/unlink, ENOSPC mid-write. Callers of a process that survives a reported error must not see it, and that process keeps calling (three more calls of everything: correct values, no exception, at most one recomputation); after restart in a fresh process every call must return the correct value, raise nothing and stop recomputing after one successful write.",
     "Faults are process death and reported errors at the calls the library issues (audit cross-check makes un-intercepted mutations a harness error); no reordering of completed writes by the OS.",
     "DESIGN.md §3 C08")
 
